@@ -4,6 +4,7 @@ CONSTANTS
   MaxRoot = 2
   MaxMid = 1
   RootTargets = {"a", "b", "m"}
+  MidTargets = {"a"}
   Spellings = {"plain", "us"}
   CfgPool = "basic"
   ListPool = "basic"
